@@ -3,7 +3,9 @@ package main
 import (
 	"bytes"
 	"encoding/json"
+	"errors"
 	"fmt"
+	"io"
 	"strings"
 
 	"github.com/CloudyKit/jet/v6"
@@ -35,6 +37,51 @@ var c03Vars = func() jet.VarMap {
 	return v
 }()
 
+// c03AfterFailedLoad: the text of a template is what its source says - also when the load before it failed half way
+// through reading (whatever had been read then is gone)
+type c03FailingReader struct{ n int }
+
+func (r *c03FailingReader) Read(p []byte) (int, error) {
+	if r.n == 0 {
+		r.n++
+		return copy(p, "STALE BYTES OF A FAILED LOAD "), nil
+	}
+	return 0, errors.New("injected read failure")
+}
+func (r *c03FailingReader) Close() error { return nil }
+
+type c03Loader struct{ *jet.InMemLoader }
+
+func (l c03Loader) Exists(p string) bool { return p == "/bad.jet" || l.InMemLoader.Exists(p) }
+func (l c03Loader) Open(p string) (io.ReadCloser, error) {
+	if p == "/bad.jet" {
+		return &c03FailingReader{}, nil
+	}
+	return l.InMemLoader.Open(p)
+}
+
+func c03AfterFailedLoad() *Result {
+	mem := jet.NewInMemLoader()
+	mem.Set("/good.jet", "plain text, copied verbatim")
+	for round := 0; round < 4; round++ {
+		set := jet.NewSet(c03Loader{mem}, jet.WithSafeWriter(nil))
+		if _, err := set.GetTemplate("/bad.jet"); err == nil {
+			return nil
+		}
+		t, err := set.GetTemplate("/good.jet")
+		var b bytes.Buffer
+		if err == nil {
+			err = safeExecute(t, &b, nil, nil)
+		}
+		if err != nil || b.String() != "plain text, copied verbatim" {
+			return &Result{Sig: map[string]interface{}{"kind": "output", "cfg": "A", "header": "", "action": false, "comment": false, "ltrim": false, "rtrim": false, "expect": "ok", "history": "after-failed-load"}, Key: "history",
+				Observed: b.String(), Expected: "plain text, copied verbatim",
+				Detail: fmt.Sprintf("after a load that failed while reading, /good.jet rendered %q (err %v); its source is %q", b.String(), err, "plain text, copied verbatim")}
+		}
+	}
+	return nil
+}
+
 func c03Replay(cfgName string) func(i int, raw json.RawMessage) Result {
 	cfg := c03Cfgs[cfgName]
 	opts := []jet.Option{jet.WithSafeWriter(nil)}
@@ -55,6 +102,11 @@ func c03Replay(cfgName string) func(i int, raw json.RawMessage) Result {
 		var v c03Vec
 		if err := json.Unmarshal(raw, &v); err != nil {
 			return Result{Detail: "bad vector: " + err.Error()}
+		}
+		if i == 0 && cfgName == "A" {
+			if r := c03AfterFailedLoad(); r != nil {
+				return *r
+			}
 		}
 		src := strings.Join(v.Inp, "")
 		for k := len(v.Hdr) - 1; k >= 0; k-- {
